@@ -1,4 +1,5 @@
 import TxdbusModel.Route.Basic
+import TxdbusModel.Gen.Route
 /-
 C12 - SPEC: when does a message satisfy a match rule.  Written from the property statement
 (which quotes the "Match Rules" section of the DBus specification); it never looks at txdbus.
@@ -76,6 +77,32 @@ def specMatches (r : RuleArgs) (m : Msg) : Bool :=
   && optAll r.pathNs (pathIn m)
   && (r.args.getD []).all (argIs m)
   && (r.argPaths.getD []).all (argPathIs m)
+
+/-- arg0namespace: `name` is the bus / interface name `ns` itself or lies below it (`com.ex` contains `com.ex` and
+`com.ex.a`, not `com.exa`). -/
+def inBusNamespace (ns name : Str) : Bool := name == ns || (ns ++ ['.']).isPrefixOf name
+
+/-- "Matches messages whose first argument is of type STRING, and is a bus name or interface name within the
+specified namespace." -/
+def arg0In (m : Msg) (ns : Str) : Bool :=
+  match m.arg? 0 with
+  | some (.str a) => inBusNamespace ns a
+  | _ => false
+
+/-- The message satisfies every constraint of the rule, `arg0namespace` included (DBus specification).  This is
+the matching relation of the property once the router evaluates `arg0namespace` (fixes/C14-05); `specMatches`
+above is the relation without that clause (what txdbus as found implements; kept, C14 builds on it). -/
+def specMatchesFull (r : RuleArgs) (m : Msg) : Bool :=
+  specMatches r m && optAll r.arg0ns (arg0In m)
+
+def specMatchesWith (evalArg0 : Bool) (r : RuleArgs) (m : Msg) : Bool :=
+  if evalArg0 then specMatchesFull r m else specMatches r m
+
+/-- The matching relation the router of the tree under test is measured against in the history theorems:
+the full relation when the tree evaluates `arg0namespace` (the switch is probed from the source), the relation
+without the clause for txdbus as found - where the difference between the two IS the recorded finding
+`arg0namespace-constraint-ignored` (witness theorem `found_router_ignores_arg0namespace`). -/
+def specMatchesGen (r : RuleArgs) (m : Msg) : Bool := specMatchesWith Gen.Route.evaluatesArg0ns r m
 
 /-! ### SPEC of the rule text: what a DBus match-rule text means
 
@@ -209,7 +236,7 @@ def SpecRouter.step (s : SpecRouter) : Op → SpecRouter × SpecObs
   | .del id =>
     if s.live.any (fun g => g.id = id) then ({ s with live := s.live.filter (fun g => g.id ≠ id) }, .deleted)
     else (s, .keyError)
-  | .route m => (s, .routed ((s.live.filter (fun g => specMatches g.args m)).map (fun g => (g.id, g.cb))))
+  | .route m => (s, .routed ((s.live.filter (fun g => specMatchesGen g.args m)).map (fun g => (g.id, g.cb))))
 
 def SpecRouter.run (s : SpecRouter) : List Op → SpecRouter × List SpecObs
   | [] => (s, [])
